@@ -128,6 +128,8 @@ def run(ctx):
     ctx.rule("R9", "the operator applied by the Davidson drivers is the singlet CIS Hamiltonian A (and the RPA coupling B): two-electron response of a non-symmetric transition density and the full matrix-vector product, chunked and unchunked (abstract interpretation, sa/npsym.py)")
     from ..assembly import check_cis_operator
     check_cis_operator(ctx, "R9")
+    from ..assembly import check_cis_energy
+    check_cis_energy(ctx, "R9")
 
     for rel, drv, helper in DRIVERS:
         mod = repo.mod(rel)
